@@ -286,9 +286,16 @@ Fixpoint wasm_set_admin (W : wasm) (c : addr) (a : option addr) : wasm :=
       else (k, i) :: wasm_set_admin r c a
   end.
 
+(** ModuleParams.Validate as used by the UpdateParams handler: 0 ≤ DeveloperShares ≤ 1
+    (AllowedDenoms entries only have to be non-blank; repeats are accepted) *)
+Definition params_valid (p : params) : bool := Z.leb 0 (p_share p) && Z.leb (p_share p) PREC.
+
 Definition step_env (st : state) (o : envop) : state :=
   match o with
-  | SetParams p => {| s_params := p; s_wasm := s_wasm st; s_reg := s_reg st; s_bank := s_bank st |}
+  | SetParams p =>
+      if params_valid p
+      then {| s_params := p; s_wasm := s_wasm st; s_reg := s_reg st; s_bank := s_bank st |}
+      else st
   | SetAdmin c a => {| s_params := s_params st; s_wasm := wasm_set_admin (s_wasm st) c a; s_reg := s_reg st; s_bank := s_bank st |}
   | Resync b => {| s_params := s_params st; s_wasm := s_wasm st; s_reg := s_reg st; s_bank := b |}
   end.
